@@ -145,9 +145,14 @@ def run_case(case, H):
                 except TheoryException as e:
                     outcome = 'own-error'
                     err = 'TheoryException'
+                except Timeout:
+                    raise
                 except RecursionError:
-                    H.inconc('recursion')
-                    return
+                    if len(harness.canon(skel_j)) > 1500:
+                        H.inconc('recursion-on-large-skeleton')
+                        return
+                    outcome = 'foreign'
+                    err = 'RecursionError: unbounded recursion on a small skeleton'
                 except Exception as e:
                     outcome = 'foreign'
                     err = '%s: %s' % (type(e).__name__, e)
@@ -323,11 +328,40 @@ def case_strategy(theory_name):
         if kind == 'ill':
             from props.c03_terms import _paths, _replace
             nodes = [(p, n) for p, n in _paths(skel) if n[0] == 'app']
-            how = draw(st.sampled_from(['selfapp', 'swap', 'arity', 'twotypes']))
+            how = draw(st.sampled_from(['selfapp', 'swap', 'arity', 'twotypes', 'cycle', 'cycle', 'annotated-twotypes', 'annotated-twotypes']))
             if how == 'selfapp' or not nodes:
                 v = ['v', 'x', None]
                 skel = ['app', ['app', ['c', 'equals', None], ['app', v, v]], ['v', 'y', None]]
                 ctx = {}
+            elif how == 'cycle':
+                # occurs-check cycles that close through several undeclared variables: x y, y z, z x ...
+                k = draw(st.integers(2, 4))
+                names = ['x', 'y', 'z', 'w'][:k]
+                order = draw(st.permutations(list(range(k))))
+                apps = [['app', ['v', names[i], None], ['v', names[(i + 1) % k], None]] for i in order]
+                tail = draw(st.sampled_from(['plain', 'cons', 'eq']))
+                if tail == 'cons' and theory_name == 'list':
+                    apps = [['app', ['app', ['c', 'equals', None], ['v', 'x', None]],
+                             ['app', ['app', ['c', 'cons', None], ['v', 'x', None]], ['c', 'nil', None]]]]
+                skel = apps[0]
+                for a in apps[1:]:
+                    skel = ['app', ['app', ['c', 'conj', None], skel], a]
+                ctx = {}
+            elif how == 'annotated-twotypes':
+                # one occurrence of an UNDECLARED variable carries an annotation, another occurrence is forced to a
+                # different type by its context
+                T1 = draw(st.sampled_from([["tc", "nat"], BOOL]))
+                v_ann = ['v', 'w', T1]
+                v_bare = ['v', 'w', None]
+                if T1 == BOOL:
+                    a = ['app', ['app', ['c', 'equals', None], ['app', ['c', 'Suc', None], v_bare]], ['c', 'zero', None]]
+                    skel = ['app', ['app', ['c', 'conj', None], v_ann], a]
+                else:
+                    a = ['app', ['app', ['c', 'equals', None], v_ann], ['c', 'zero', None]]
+                    skel = ['app', ['app', ['c', 'conj', None], a], v_bare]
+                if draw(st.booleans()):
+                    skel = ['app', ['app', ['c', 'conj', None], skel[2]], skel[1][2]]
+                ctx = {} if draw(st.booleans()) else {'w': draw(st.sampled_from([["tc", "nat"], BOOL]))}
             elif how == 'swap':
                 p, n = draw(st.sampled_from(nodes))
                 skel = _replace(skel, p, ['app', n[2], n[1]])
